@@ -131,6 +131,12 @@ async fn workload<S: ObjectStore + Clone + 'static>(store: S, inner: InMemoryObj
                 }
             }
             Ok(fr) => {
+                // the published SegmentInfo must not overstate the oldest stamp of the segment (compaction's tombstone rule reads it)
+                if let Some(seg) = &fr.segment {
+                    if let Some(d) = pending.iter().find(|d| d.value.timestamp.time < seg.min_timestamp) {
+                        return Outcome { found: Some(Found { input: ctx(), observed: format!("segment {} published with min_timestamp {} although it holds an update of {:?} stamped ({},{})", seg.key, seg.min_timestamp, d.key, d.value.timestamp.time, d.value.timestamp.replica_id.0), required: "SegmentInfo.min_timestamp <= every stamp flushed into the segment".into() }) };
+                    }
+                }
                 if fr.deltas_flushed != pending.len() || p.pending_count() != 0 || fr.segment.is_some() != !pending.is_empty() {
                     return Outcome { found: Some(Found { input: ctx(), observed: format!("flush Ok(deltas_flushed={}, segment={:?}), pending_count()=={}", fr.deltas_flushed, fr.segment.as_ref().map(|s| s.key.clone()), p.pending_count()), required: format!("deltas_flushed == {} and nothing pending", pending.len()) }) };
                 }
